@@ -347,7 +347,14 @@ protected:
         unaryEncVars[v-lb] = int( this->AddVar(0.0, 1.0, var::INTEGER) );
       }
     }
-    assert(map.size()==(size_t)nTaken);
+    if (map.size()!=(size_t)nTaken) {   // values outside the domain
+      for (const auto& veq : map)        // or fractional: never equal
+        if (veq.first < lb || veq.first > ub
+            || veq.first != std::round(veq.first))
+          MPD( NarrowVarBounds(
+                 GET_CONSTRAINT_KEEPER(CondLinConEQ).
+                   GetResultVar(veq.second), 0.0, 0.0) );
+    }
     std::vector<double> coefs(ub-lb+1, 1.0);
     this->AddConstraint(LinConEQ({coefs, unaryEncVars}, 1.0));
     unaryEncVars.push_back(var);
